@@ -33,8 +33,10 @@ LEVEL_TEXT = (
 LEVEL_NOTE = "Trusted: vf/ref/bz.py apply_change/apply_wire (Bugzilla add/remove/set semantics). Exhaustive only within the stated alphabet."
 RULE = (
     "pairs (c1,c2) of add/remove/set changes over {a,b,c,d} x initial subset L; non-trivial = both changes non-empty "
-    "and they interact (share a value, or one of them is a set); distinct = (c1,c2,L). updates: random BugUpdate "
-    "field assignments; non-trivial = >=2 fields given incl. one list change or one falsy-but-given value"
+    "and they interact (share a value, or one of them is a set); distinct = (c1,c2[,c3],nesting), each evaluated on every L. updates: every field alone x every "
+    "vocabulary value (enumerated) + random BugUpdates with each scalar field from {unset, '', '0', ' ', text} and each "
+    "list field from {unset, no-op change, add/remove, set incl. empty}; non-trivial = >=2 wire keys expected beyond "
+    "ids incl. one list change or one falsy-but-given value (set-to-empty counts as set: only None means unset)"
 )
 ASSUMPTIONS = [
     "Bugzilla applies {'add','remove'} as (L | add) - remove and {'set'} as replacement; list fields are sets",
@@ -133,8 +135,9 @@ def check_seq(ctx, seq, inits, nesting="left", ints=False, record=True):
     if ints:
         cls.append("int_values")
     if record:
-        for L in inits:
-            ctx.case(dict(base, init=L), nontrivial=nt, classes=cls, key=core.jdump([seq, nesting, ints, L]))
+        # one record per combination, counted once per initial list it is evaluated on (recording 16 separate JSON
+        # cases per pair was most of the run time); distinct = the combination
+        ctx.case(dict(base, inits=len(inits)), nontrivial=nt, classes=cls, key=core.jdump([seq, nesting, ints]), n=len(inits))
     if refused or core.crashed(res):
         return
     wire, truthy = res
@@ -185,31 +188,47 @@ def list_change():
     return st.one_of(addrem, addrem, st.lists(vals, max_size=2, unique=True).map(lambda s: {"set": s}))
 
 
+SCALAR_TEXT = ["", "0", " ", "None", "x", "new summary", "B3 [ebuild]"]  # "" = documented way to clear a field
+SCALAR_FIELDS = {
+    "summary": SCALAR_TEXT,
+    "assigned_to": ["", "0", "m@gentoo.org"],
+    "whiteboard": SCALAR_TEXT,
+    "deadline": ["2024-03-01", "1999-12-31"],
+    "package_list": ["", "=dev-libs/a-1 amd64", "dev-libs/a *\n"],
+    "runtime_testing_required": ["---", "Yes", "No", "Manual"],
+}
+UNSET = "<unset>"
+
+
 def update_case():
-    text = st.sampled_from(["", "x", "new summary", "B3 [ebuild]", "0"])
-    fields = {
-        "summary": text, "assigned_to": st.sampled_from(["m@gentoo.org", ""]), "whiteboard": text,
-        "deadline": st.sampled_from(["2024-03-01", "1999-12-31"]),
-        "flags": st.lists(st.tuples(st.sampled_from(["sanity-check", "review"]), st.sampled_from(["+", "-", "?", "X"]),
-                                    st.sampled_from([None, "a@gentoo.org"])).map(list), max_size=2),
-        "comment": st.tuples(st.sampled_from(["", "done", "line1\nline2"]), st.booleans()).map(list),
-        "package_list": st.sampled_from(["", "=dev-libs/a-1 amd64", "dev-libs/a *\n"]),
-        "runtime_testing_required": st.sampled_from(["---", "Yes", "No", "Manual"]),
-    }
+    """every scalar field independently from {unset, "", falsy-looking text, ordinary text}; every list field from
+    {unset, empty change (no-op), add/remove, set (incl. empty set)}; flags from {unset, (), non-empty}; comment from
+    {unset, "" body, text}.  BugUpdate documents None (the default) as "leave the bug alone", so any other value --
+    including "" -- is a field that was set and must be on the wire."""
+    fields = {n: st.sampled_from([UNSET, UNSET] + vals) for n, vals in SCALAR_FIELDS.items()}
+    fields["flags"] = st.one_of(
+        st.just(UNSET), st.just(UNSET),
+        st.lists(st.tuples(st.sampled_from(["sanity-check", "review"]), st.sampled_from(["+", "-", "?", "X"]),
+                           st.sampled_from([None, "a@gentoo.org", ""])).map(list), max_size=2))
+    fields["comment"] = st.one_of(st.just(UNSET), st.just(UNSET),
+                                  st.tuples(st.sampled_from(["", "done", "line1\nline2"]), st.booleans()).map(list))
     for f in LIST_FIELDS:
-        fields[f] = list_change()
+        fields[f] = st.one_of(st.just(UNSET), st.just(UNSET), st.just({"add": [], "remove": []}), list_change())
     resolution = st.one_of(
         st.none(),
         st.tuples(st.just("open"), st.sampled_from(STATUSES)),
         st.tuples(st.just("resolved"), st.sampled_from(RESOLUTIONS), st.integers(0, 5)),
         st.tuples(st.just("verified"), st.sampled_from(RESOLUTIONS), st.integers(0, 5)),
     )
-    given = st.lists(st.sampled_from(sorted(fields)), max_size=6, unique=True)
+    names = sorted(fields)
 
     @st.composite
     def mk(draw):
-        names = draw(given)
-        vals = {n: draw(fields[n]) for n in names}
+        vals = {}
+        for n in names:
+            v = draw(fields[n])
+            if v != UNSET:
+                vals[n] = v
         res = draw(resolution)
         if res is not None:
             if res[0] == "open":
@@ -238,6 +257,29 @@ def update_case():
         return {"kind": "update", "via": via, "extra": extra, "fields": vals, "ids": ids}
 
     return mk()
+
+
+def enumerated_updates():
+    """deterministic floor under the random updates: every field alone with every value of its vocabulary (so each
+    set-to-empty / falsy value is exercised on its own), then the same next to a status change"""
+    singles = []
+    for n, vals in SCALAR_FIELDS.items():
+        singles += [(n, v) for v in vals]
+    for n in LIST_FIELDS:
+        singles += [(n, d) for d in ({"add": [], "remove": []}, {"add": ["a"], "remove": []}, {"add": [], "remove": ["b"]},
+                                     {"add": ["a"], "remove": ["b"]}, {"set": []}, {"set": ["c"]})]
+    singles += [("flags", []), ("flags", [["sanity-check", "X", None]]), ("flags", [["review", "?", ""]]),
+                ("comment", ["", False]), ("comment", ["", True]), ("comment", ["done", False]),
+                ("dupe_of", None)]
+    for n, v in singles:
+        for extra in ({}, {"status": "CONFIRMED"}):
+            f = dict(extra)
+            if n == "dupe_of":
+                f.update(status="RESOLVED", resolution="DUPLICATE", dupe_of=0)
+            else:
+                f[n] = v
+            yield {"kind": "update", "via": "direct", "extra": None, "fields": f, "ids": [1]}
+    yield {"kind": "update", "via": "direct", "extra": None, "fields": {}, "ids": [1, 2]}
 
 
 def check_update(ctx, case, record=True):
@@ -305,9 +347,11 @@ def check_update(ctx, case, record=True):
         expect["status"] = "RESOLVED"; expect["resolution"] = "OBSOLETE"
         expect["see_also"] = {"add": [f"https://bugs.gentoo.org/{extra[0]}"]}
 
-    falsy_given = any(v in ("", 0, [], ["", False]) or v == {"set": []} for v in f.values())
+    falsy_given = any(v in ("", 0, [], ["", False], ["", True]) or v == {"set": []} for v in f.values())
+    empty_text = [n for n in ("summary", "assigned_to", "whiteboard", "package_list") if f.get(n) == ""]
     has_list = any(n in LIST_FIELDS and not is_empty(v) for n, v in f.items())
     cls = [f"via:{via}"] + (["falsy_but_given"] if falsy_given else []) + (["list_change"] if has_list else [])
+    cls += [f"set_to_empty:{n}" for n in empty_text]
     if any(n in LIST_FIELDS and is_empty(v) for n, v in f.items()):
         cls.append("noop_list_change_given")
     if record:
@@ -346,14 +390,18 @@ def check_update(ctx, case, record=True):
 # --------------------------------------------------------------------------- runner glue
 
 def plan(tier, seed):
-    tasks = [{"task": "pairs", "slice": i, "nslices": 8, "ints": False} for i in range(8)]
-    tasks += [{"task": "pairs", "slice": i, "nslices": 2, "ints": True, "sample": 0.25 if tier == "quick" else 1.0} for i in range(2)]
+    # Few tasks on purpose: the enumeration costs well under a second of CPU, a worker's start-up (importing pkgcore)
+    # costs more, so one wave of workers finishes inside the guard even on a loaded machine.  BugUpdate tasks first.
     if tier == "quick":
-        tasks += [{"task": "triples", "slice": i, "nslices": 4, "sample": 0.25} for i in range(4)]
-        tasks += [{"task": "updates", "examples": 1500} for _ in range(2)]
+        tasks = [{"task": "updates", "examples": 600, "enum": i == 0} for i in range(3)]
+        tasks += [{"task": "pairs", "slice": 0, "nslices": 1, "ints": False}]
+        tasks += [{"task": "pairs", "slice": 0, "nslices": 1, "ints": True, "sample": 1.0}]
+        tasks += [{"task": "triples", "slice": i, "nslices": 2, "sample": 0.2} for i in range(2)]
     else:
-        tasks += [{"task": "triples", "slice": i, "nslices": 16, "sample": 1.0} for i in range(16)]
-        tasks += [{"task": "updates", "examples": 15000} for _ in range(8)]
+        tasks = [{"task": "updates", "examples": 15000, "enum": i == 0} for i in range(8)]
+        tasks += [{"task": "pairs", "slice": i, "nslices": 2, "ints": False} for i in range(2)]
+        tasks += [{"task": "pairs", "slice": i, "nslices": 2, "ints": True, "sample": 1.0} for i in range(2)]
+        tasks += [{"task": "triples", "slice": i, "nslices": 4, "sample": 1.0} for i in range(4)]
     return tasks
 
 
@@ -400,6 +448,10 @@ def run_task(ctx, task, **kw):
                     check_seq(ctx, [c1, c2, c3], inits, nesting="right")
         ctx.note("exhaustive_triples", bool(full))
     elif task == "updates":
+        if kw.get("enum"):
+            for c in enumerated_updates():
+                check_update(ctx, c)
+            ctx.note("enumerated_single_field_updates", True)
         core.hyp_run(ctx, update_case(), lambda c: check_update(ctx, c), kw["examples"], chunk=500)
     else:
         raise core.HarnessError(f"unknown task {task}")
